@@ -380,7 +380,7 @@ def run(chk):
     # itself only looks at what the implementation did
     strs = []
     cur_orig = None
-    for (k, v, kind, det), c, o in zip(dmeta, dec_cases, impl):
+    for (k, v, kind, det), c, o, mo in zip(dmeta, dec_cases, impl, model):
         chk.count(c, kind != 'orig')
         if kind == 'orig':
             cur_orig = o
@@ -405,7 +405,7 @@ def run(chk):
             if not o.startswith('err ') and o != cur_orig:
                 # accepted as something else: fine only if the parser consumed a vector that is itself a complete encoding followed by
                 # ignored tokens (rest>0: the readers never check for left-over tokens) or is itself a printer output
-                rest = int(kv(o).get('rest', '0'))
+                rest = int(kv(mo).get('rest', '0')) if mo.startswith('ok ') else 0      # class predicate: the extracted parser leaves tokens
                 if rest > 0:
                     violation(chk, stats, 'trailing-tokens-ignored', {'kind': 'monitor', 'what': 'deleting token %d of a %s encoding is accepted as a different value, %d trailing tokens ignored' % (det, k, rest), 'case': c, 'impl': o, 'orig': cur_orig})
                 else:
@@ -447,7 +447,7 @@ def run(chk):
     vals = []
     for i in range(n_pcm):
         k = g.r.random()
-        vals.append(g.pcm(compact=(k < 0.85), allow_empty=(0.6 < k), maxnodes=3 if quick else g.r.choice([3, 3, 5])))
+        vals.append(g.pcm(compact=(k < 0.9), allow_empty=(0.7 < k), maxnodes=3 if quick else g.r.choice([3, 3, 5])))
     vals.append({'epoch': 0, 'flags': 0, 'name': b'', 'local': [], 'peer': [], 'cfg': (0, 10800, 10000, 500, 16)})
     vals.append({'epoch': U64, 'flags': 1, 'name': b'PEER', 'local': [], 'peer': [(b'10.0.0.1:70', [('N', [(0, 16383)], None)])], 'cfg': (2, U64, 0, U64, 1)})
     vals.append({'epoch': 7, 'flags': 0, 'name': b'c', 'local': [(b'10.0.0.1:70', [])], 'peer': [(b'10.0.0.2:70', [])], 'cfg': (1, 1, 2, 3, 4)})
@@ -511,8 +511,12 @@ def run(chk):
                 if lf.get('lang') == '1': violation(chk, stats, 'token-mutation-in-language', dict(data, what='mutated SETCLUSTER vector is itself a printer output for different metadata'))
                 elif ext0 and lf.get('tol') == '1': violation(chk, stats, 'config-error-tolerated', dict(data, what='mutated SETCLUSTER vector accepted: config error tolerated'))
                 elif lf.get('flags') == '1': violation(chk, stats, 'unvalidated-flags-token', dict(data, what='mutated SETCLUSTER vector accepted: the flags slot holds an unrecognised token'))
+                elif lf.get('regroup') == '1': violation(chk, stats, 'interleaved-node-groups', dict(data, what='mutated SETCLUSTER vector accepted: groups of one node separated by another node\'s group (not a printer output)'))
                 else: violation(chk, stats, None, dict(data, what='mutated SETCLUSTER vector accepted as different metadata outside every known class'))
     pstats = {}
+    own = R.model(['cls_lang ' + toks_str(t) for _, t, _ in msgs])
+    msgs = [x for x, l in zip(msgs, own) if kv(l).get('lang') == '1']
+    pstats['messages_swept'] = len(msgs if not quick else msgs[:30])
     sweep(chk, R, msgs if not quick else msgs[:30], 'pcm_dec', pcm_classes, pstats)
 
     # ---------- 3. compressed form: section hypothesis against the real libraries + base64 mutation sweep ----------
@@ -579,10 +583,13 @@ def run(chk):
                 if kv(t).get('rb') == '1': violation(chk, stats, 'truncation-at-record-boundary', dict(data, what='truncated SETREPL vector accepted: cut at a record boundary'))
                 else: violation(chk, stats, None, dict(data, what='SETREPL vector truncated inside a record is accepted as different metadata'))
             elif kv(l).get('lang') == '1': violation(chk, stats, 'token-mutation-in-language', dict(data, what='mutated SETREPL vector is itself a printer output for different metadata'))
-            elif len(mt) > 1 and mt[1] not in (b'NOFLAG', b'FORCE', b'COMPRESS', b'FORCE,COMPRESS'):
+            elif kv(l).get('flags') == '1':
                 violation(chk, stats, 'unvalidated-flags-token', dict(data, what='mutated SETREPL vector accepted: the flags slot holds an unrecognised token'))
             else: violation(chk, stats, None, dict(data, what='mutated SETREPL vector accepted as different metadata outside every known class'))
     rstats = {}
+    own = R.model(['cls_rlang ' + toks_str(t) for _, t, _ in rmsgs])
+    rmsgs = [x for x, l in zip(rmsgs, own) if kv(l).get('lang') == '1']
+    rstats['messages_swept'] = len(rmsgs if not quick else rmsgs[:30])
     sweep(chk, R, rmsgs if not quick else rmsgs[:30], 'repl_dec', repl_classes, rstats)
 
     # ---------- bookkeeping ----------
